@@ -198,7 +198,7 @@ def gen_handle_op(rng, s: Session, tables):
         return ("iso", h, rng.choice([v for v in pool if v not in isos])), ("raise",)
     if r == "addiso":
         if t != "public" and rng.random() < 0.6:
-            aa = rng.choice([v for v in (1, 2, 3, 4, 7, 12, 56, 57, 300, 0) if True])
+            aa = rng.choice((1, 2, 3, 4, 7, 12, 56, 57, 300, 999))   # mass number 0 is not an isotope
         elif isos:
             aa = rng.choice(isos)
         else:
@@ -559,7 +559,7 @@ def run(run: Run) -> int:
             sessions.append(s)
         run_sessions(run, pt, sessions, "core-sweep")
         run.exhaustive = True
-        n = 600 if run.tier == "quick" else 30000
+        n = 600 if run.tier == "quick" else 15000
         for lo in range(0, n, 500):
             batch = []
             for i in range(lo, min(n, lo + 500)):
